@@ -184,7 +184,8 @@ PROPS = {
         technique="contract-based deductive verification: Verus contracts with generated checkpoint assertions on the fully unrolled Montgomery code of ff_derive's expansion (Fq, Fr); "
                   "contract harnesses checked by Kani/CBMC on the compiled crate for the limb layer: full 384-/256-bit input domain, loops bounded by the limb count with unwinding assertions (complete, not bounded)",
         claim="limb layer (CBMC, bit-precise, every input): for FqRepr (6 limbs) and FrRepr (4 limbs) is_zero, is_odd/is_even, add_nocarry and sub_noborrow (within their "
-              "no-carry / no-borrow preconditions), div2, mul2, shr / shl by any n, num_bits, cmp (= order of the unsigned integers), From<u64>; ff's mac_with_carry and adc are exact; for Fq "
+              "no-carry / no-borrow preconditions), div2, mul2, shr / shl by any n, num_bits, cmp (= order of the unsigned integers), From<u64>; read_be / write_be / read_le / write_le over byte slices and Vec<u8> "
+              "(8 bytes per limb, most resp. least significant limb first, the cursor advances by exactly 8n bytes, the rest of the buffer is untouched, a short input is an error); ff's mac_with_carry and adc are exact; for Fq "
               "and Fr on every pair of valid (reduced) Montgomery representatives add_assign, sub_assign, negate, double give (a+b), (a-b), (-a), 2a modulo the "
               "modulus and a reduced result, is_zero exact, zero() is 0. "
               "Montgomery layer (Verus, real unrolled bodies of the derive expansion, Fq and Fr): mul_assign computes the exact 2n-limb product (schoolbook rows), square the same value by "
@@ -196,7 +197,7 @@ PROPS = {
               "and otherwise y with mv(y) mv(x) == 1 mod q (partial correctness: termination of the Euclid loops needs q prime, A1, and is not proved). "
               "pow (ff's generic square-and-multiply, text of the pinned dependency source) returns x^e for every exponent given as limbs; legendre / Fq::sqrt as stated under C18. "
               "These are the contracts (D_FQ) every unit above the limb layer assumes of Fq / Fr.",
-        not_covered=["termination of inverse (needs gcd(a, q) = 1, i.e. A1)", "Fr::sqrt (Tonelli-Shanks), random, read/write_be/le: not under contract (assumed where used: D1)",
+        not_covered=["termination of inverse (needs gcd(a, q) = 1, i.e. A1)", "Fr::sqrt (Tonelli-Shanks), random: not under contract; read/write_be/le are proved for slice / Vec streams (a generic std::io stream enters through D2)",
                      "the values of GENERATOR, ROOT_OF_UNITY (MODULUS, R, R2, INV, B_COEFF, NEGATIVE_ONE and the from_okm shift constants ARE checked: unit consts resp. by(compute) in unit mont)"],
         assumptions=["Kani 0.68 / CBMC 6.11; the unsafe transmute constructor pairing::bls12_381::transmute::{fq, fr} and mem::transmute_copy are used to move raw limbs in and out", "rustc codegen (MIR -> goto)",
                      "unit mont sees the representation type through the limb-level contracts that kani:limbs proves (lt / gt / eq / cmp = integer order, add_nocarry, sub_noborrow, mul2, is_zero, From<u64>), and ff's mac_with_carry / adc through theirs",
